@@ -35,15 +35,15 @@ def run(tier):
         off = k % 2
         rows = int(rng.randint(3, 7)) + 2 * off
         cols = int(rng.randint(4, 9)) + 2 * off
-        s = int([1, 2, 1, 4][k % 4])
+        s = int([1, 2, 4, 4][k % 4])
         dist = int([2, 3, 5, 1, 2][k % 5])
         inten = float([0.5, 5.0, 30.0][k % 3])
         nd = int(rng.randint(1, 4)) * s - (s - 1) if s > 1 else int(rng.randint(1, 5))
         nd = max(nd, 1)
-        dmin = int(rng.randint(-2, 2))
+        dmin = int(rng.randint(-2, 2)) if s == 1 else int(rng.randint(-2, 0))
         L = vals[rng.randint(0, len(vals), size=(rows, cols))]
         R = vals[rng.randint(0, len(vals), size=(rows, cols))]
-        if k % 3 == 0:       # large flat areas so that arms reach cbca_distance
+        if k % 3 == 0 and s == 1:       # large flat areas so that arms reach cbca_distance
             L[:, :] = 10
             R[:, :] = 10
             L[rng.randint(rows), rng.randint(cols)] = 40
